@@ -449,6 +449,12 @@ def abstract_structure(prog, key, depth=0):
     pv = Prov(f)
     res = None
     direct = [(bb, t) for bb, t in f.calls() if callee_path(t) in STRUCTURES]
+    if len(direct) > 1:
+        # the arm of a match on a literal that the literal does not take (an Option parameter of an inlined helper that is
+        # `None` / `Some(..)` at this call site) is not a site of this function
+        live = [(bb, t) for bb, t in direct if not pv._block_statically_dead(bb)]
+        if live:
+            direct = live
     if len(direct) == 1:
         bb, t = direct[0]
         from lib.prov import resolve_consts
